@@ -26,7 +26,7 @@ MapOfId(id) == CASE id = "identity" -> Identity [] id = "sparse" -> SparseMap []
 MapIds == {"identity", "sparse", "quant32"}
 
 CfgsOf(k, lims) ==
-  { [kind |-> k, neverStop |-> ns, hasRpm |-> hr, hasPwm |-> TRUE, hasMode |-> (k = "hwmon"),
+  { [kind |-> k, neverStop |-> ns, hasRpm |-> hr, hasPwm |-> TRUE, hasMode |-> (k = "hwmon"), modeStuck |-> FALSE,
      gmin |-> IF ns /\ k = "hwmon" THEN lim[1] ELSE 0, mx |-> IF k = "hwmon" THEN lim[2] ELSE P,
      map |-> MapOfId(mi), keys |-> DistinctKeys(MapOfId(mi)),
      wf |-> WriteTable(MapOfId(mi), DistinctKeys(MapOfId(mi))),
